@@ -32,14 +32,18 @@ import (
 
 // ServiceDef is registered by the glue for each service of the design.
 type ServiceDef struct {
-	Name         string                  // design name (ServiceName constant)
-	ServiceType  reflect.Type            // the generated Service interface
-	NewStub      func(h *H) any          // returns a value implementing Service (and Auther)
-	NewEndpoints any                     // gen/<svc>.NewEndpoints
-	NewServer    any                     // gen/http/<svc>/server.New
-	Mount        any                     // gen/http/<svc>/server.Mount
-	NewClient    any                     // gen/http/<svc>/client.NewClient
-	Types        map[string]reflect.Type // named types of the service package
+	Name         string         // design name (ServiceName constant)
+	ServiceType  reflect.Type   // the generated Service interface
+	NewStub      func(h *H) any // returns a value implementing Service (and Auther)
+	NewEndpoints any            // gen/<svc>.NewEndpoints
+	NewServer    any            // gen/http/<svc>/server.New
+	Mount        any            // gen/http/<svc>/server.Mount
+	NewClient    any            // gen/http/<svc>/client.NewClient
+	// gRPC (nil when the service has no gRPC transport)
+	GRPCNewServer any                     // gen/grpc/<svc>/server.New
+	GRPCRegister  any                     // gen/grpc/<svc>/pb.Register<Svc>Server
+	GRPCNewClient any                     // gen/grpc/<svc>/client.NewClient
+	Types         map[string]reflect.Type // named types of the service package
 }
 
 // H is the harness state.
@@ -86,6 +90,7 @@ type mounted struct {
 	endpoints reflect.Value
 	server    reflect.Value
 	client    reflect.Value
+	gclient   reflect.Value // gRPC client
 }
 
 // New returns an empty harness.
@@ -109,6 +114,8 @@ type Case struct {
 	Raw        *RawReq   `json:"raw,omitempty"`    // op "raw": send this request with a plain http.Client
 	Auth       *AuthSpec `json:"auth,omitempty"`
 	Accept     string    `json:"accept,omitempty"`
+	// Transport: "" or "http" = generated HTTP client/server, "grpc" = generated gRPC client/server over an in-memory connection
+	Transport string `json:"transport,omitempty"`
 	// op "burst": run these "call" cases with Workers goroutines (1 = sequentially)
 	Burst   []Case `json:"burst,omitempty"`
 	Workers int    `json:"workers,omitempty"`
@@ -230,6 +237,11 @@ type Obs struct {
 	Handled      [][]string `json:"handled,omitempty"`
 	ServerPanic  string     `json:"server_panic,omitempty"`
 	Sub          []*Obs     `json:"sub,omitempty"` // op "burst": one observation per case
+	// gRPC: request metadata seen by the server, response header and trailer metadata seen by the client, status code
+	GRPCMetadata map[string][]string `json:"grpc_metadata,omitempty"`
+	GRPCHeader   map[string][]string `json:"grpc_header,omitempty"`
+	GRPCTrailer  map[string][]string `json:"grpc_trailer,omitempty"`
+	GRPCCode     string              `json:"grpc_code,omitempty"`
 }
 
 type caseState struct {
@@ -309,6 +321,9 @@ func (h *H) start() error {
 			mt.Call([]reflect.Value{reflect.ValueOf(h.mux), m.server})
 		}
 		h.svcs[name] = m
+	}
+	if err := h.startGRPC(); err != nil {
+		return err
 	}
 	h.handler = h.countingHandler(h.mux)
 	h.server = httptest.NewServer(h.handler)
@@ -695,12 +710,16 @@ func (h *H) call(cs *caseState) {
 		fail("unknown service " + c.Svc)
 		return
 	}
-	if !m.client.IsValid() {
-		fail("service has no HTTP client")
+	client := m.client
+	if c.Transport == "grpc" {
+		client = m.gclient
+	}
+	if !client.IsValid() {
+		fail("service has no " + c.Transport + " client")
 		return
 	}
 	// client endpoint: method of the client returning goa.Endpoint
-	ep, err := clientEndpoint(m.client, c.Method)
+	ep, err := clientEndpoint(client, c.Method)
 	if err != nil {
 		fail(err.Error())
 		return
